@@ -568,6 +568,159 @@ Proof.
 Qed.
 End Cache.
 
+(* ------------------------------------------------------------------ permission masks of injections *)
+(* HashMap::get on the script_injections map *)
+Fixpoint sget (s : str) (m : list (str * N)) : option N :=
+  match m with
+  | [] => None
+  | (s', p) :: r => if str_eqb s s' then Some p else sget s r
+  end.
+Definition or_opt (o : option N) (q : N) : option N :=
+  Some (match o with Some p => N.lor p q | None => q end).
+Definition acc_perm (s : str) (o : option N) (l : list (str * N)) : option N :=
+  fold_left (fun o e => if str_eqb s (fst e) then or_opt o (snd e) else o) l o.
+
+Lemma sget_script_or x s mask m :
+  sget x (script_or s mask m) = if str_eqb x s then or_opt (sget s m) mask else sget x m.
+Proof.
+  induction m as [|[s' p] m IH]; cbn.
+  - destruct (str_eqb x s); reflexivity.
+  - destruct (str_eqb s s') eqn:E; cbn.
+    + apply str_eqb_eq in E; subst s'. destruct (str_eqb x s) eqn:E2; [|reflexivity].
+      rewrite str_eqb_refl. reflexivity.
+    + destruct (str_eqb x s') eqn:E3.
+      * apply str_eqb_eq in E3; subst s'. destruct (str_eqb x s) eqn:E4; [|reflexivity].
+        apply str_eqb_eq in E4; subst. rewrite str_eqb_refl in E. discriminate.
+      * rewrite IH. destruct (str_eqb x s); reflexivity.
+Qed.
+
+Lemma sget_fold x l m :
+  sget x (fold_left (fun acc e => script_or (fst e) (snd e) acc) l m) = acc_perm x (sget x m) l.
+Proof.
+  revert m; induction l as [|a l IH]; intros m; cbn; [reflexivity|].
+  unfold acc_perm in *. rewrite IH, sget_script_or. cbn [fold_left].
+  destruct (str_eqb x (fst a)) eqn:E; [|reflexivity]. apply str_eqb_eq in E; subst. reflexivity.
+Qed.
+
+Lemma sget_script_remove x s m : sget x (script_remove s m) = if str_eqb x s then None else sget x m.
+Proof.
+  induction m as [|[s' p] m IH]; cbn.
+  - destruct (str_eqb x s); reflexivity.
+  - destruct (str_eqb s s') eqn:E; cbn.
+    + rewrite IH. destruct (str_eqb x s) eqn:E2; [reflexivity|].
+      apply str_eqb_eq in E; subst s'. rewrite E2. reflexivity.
+    + destruct (str_eqb x s') eqn:E3; [|exact IH].
+      apply str_eqb_eq in E3; subst s'. destruct (str_eqb x s) eqn:E4; [|reflexivity].
+      apply str_eqb_eq in E4; subst. rewrite str_eqb_refl in E. discriminate.
+Qed.
+
+Lemma sget_uninject_sub l m e x p :
+  sget x (fst (fold_left uninject_one l (m, e))) = Some p -> sget x m = Some p.
+Proof.
+  revert m e; induction l as [|a l IH]; intros m e; cbn [fold_left]; [auto|].
+  intros H. destruct (uninject_one (m, e) a) as [m' e'] eqn:Ha. apply IH in H.
+  unfold uninject_one in Ha. cbn [fst snd] in Ha.
+  destruct (null (fst a)); cbn [fst snd] in Ha.
+  - inversion Ha; subst. discriminate.
+  - destruct e; inversion Ha; subst; [exact H|].
+    rewrite sget_script_remove in H. destruct (str_eqb x (fst a)); [discriminate|exact H].
+Qed.
+
+Lemma populate_sget d hashes st x :
+  sget x (st_scripts (fold_left (populate_step d) hashes st)) =
+  acc_perm x (sget x (st_scripts st)) (U d TInject hashes).
+Proof.
+  revert st; induction hashes as [|hh hs IH]; intros st; cbn [fold_left]; [reflexivity|].
+  rewrite IH. cbn [populate_step st_scripts]. rewrite sget_fold, U_cons.
+  unfold acc_perm. rewrite fold_left_app. reflexivity.
+Qed.
+
+Lemma prune_sget_sub d hashes st x p :
+  sget x (st_scripts (fold_left (prune_step d) hashes st)) = Some p -> sget x (st_scripts st) = Some p.
+Proof.
+  revert st; induction hashes as [|hh hs IH]; intros st; cbn [fold_left]; [auto|].
+  intros H. apply IH in H. cbn [prune_step st_scripts] in H. apply sget_uninject_sub in H. exact H.
+Qed.
+
+Lemma acc_perm_bits s l : forall o p,
+  acc_perm s o l = Some p ->
+  forall i, N.testbit p i = true <->
+            (exists p0, o = Some p0 /\ N.testbit p0 i = true) \/
+            (exists q, In (s, q) l /\ N.testbit q i = true).
+Proof.
+  induction l as [|[s' q'] l IH]; intros o p H i.
+  - cbn in H. subst o. split.
+    + intros Hb. left. eauto.
+    + intros [(p0 & E & Hb)|(q & [] & _)]. inversion E; subst. exact Hb.
+  - unfold acc_perm in H. cbn [fold_left fst snd] in H.
+    destruct (str_eqb s s') eqn:E.
+    + apply str_eqb_eq in E; subst s'. fold (acc_perm s (or_opt o q') l) in H.
+      rewrite (IH _ _ H i). unfold or_opt. split.
+      * intros [(p0 & Ep & Hb)|(q & Hq & Hb)].
+        -- inversion Ep; subst p0. destruct o as [p1|].
+           ++ rewrite N.lor_spec in Hb. apply orb_true_iff in Hb as [Hb|Hb].
+              ** left. eauto.
+              ** right. exists q'. split; [left; reflexivity|exact Hb].
+           ++ right. exists q'. split; [left; reflexivity|exact Hb].
+        -- right. exists q. split; [right; exact Hq|exact Hb].
+      * intros [(p0 & -> & Hb)|(q & [Hq|Hq] & Hb)].
+        -- left. eexists. split; [reflexivity|]. rewrite N.lor_spec, Hb. reflexivity.
+        -- inversion Hq; subst q. left. eexists. split; [reflexivity|].
+           destruct o; [rewrite N.lor_spec, Hb; apply orb_true_r|exact Hb].
+        -- right. eauto.
+    + fold (acc_perm s o l) in H. rewrite (IH _ _ H i). split.
+      * intros [A|(q & Hq & Hb)]; [left; exact A|]. right. exists q. split; [right; exact Hq|exact Hb].
+      * intros [A|(q & [Hq|Hq] & Hb)]; [left; exact A| |right; eauto].
+        inversion Hq; subst. rewrite str_eqb_refl in E. discriminate.
+Qed.
+
+Section Perm.
+Variable h : str -> N.
+Variable uw : N -> bool.
+
+(* the mask the result holds for an injected scriptlet is the union of the masks of the
+   identical injections found under the lookup hashes *)
+Theorem script_mask_algebra c host dom gh s p :
+  sget s (script_injections (hostname_cosmetic_resources h c host dom gh)) = Some p ->
+  forall i, N.testbit p i = true <->
+            exists q, In (s, q) (U (db c) TInject (lookup_hashes h host dom)) /\ N.testbit q i = true.
+Proof.
+  unfold hostname_cosmetic_resources, lookup_hashes, lookup_strings,
+    get_entity_hashes_from_labels, get_hostname_hashes_from_labels.
+  rewrite <- map_app. cbn [script_injections].
+  intros H i. apply prune_sget_sub in H. rewrite populate_sget in H. cbn [init_state st_scripts sget] in H.
+  rewrite (acc_perm_bits _ _ _ _ H i). split.
+  - intros [(p0 & E & _)|A]; [discriminate|exact A].
+  - intros A. right. exact A.
+Qed.
+
+Lemma U_inject_spec rules hashes s q :
+  In (s, q) (U (db (build_cache h uw rules)) TInject hashes) <->
+  exists r x, In r rules /\ In (x, (TInject, (s, q))) (contrib r) /\ In (h x) hashes.
+Proof.
+  unfold U. rewrite in_flat_map. split.
+  - intros (hh & Hhh & Hv). apply bin_In in Hv as (r & x & k & Hr & Hxk & Hk & <- & Hp).
+    destruct k as [tg [s' q']]. cbn in Hk. subst tg. cbn in Hp. inversion Hp; subst. eauto.
+  - intros (r & x & Hr & Hxk & Hh). exists (h x). split; [exact Hh|]. apply bin_In.
+    exists r, x, (TInject, (s, q)). auto.
+Qed.
+
+Theorem script_mask_spec rules host dom gh s p :
+  inj_on h (lookup_strings host dom ++ all_locations rules) ->
+  sget s (script_injections (hostname_cosmetic_resources h (build_cache h uw rules) host dom gh)) = Some p ->
+  forall i, N.testbit p i = true <->
+            exists q, applies rules host dom TInject s q /\ N.testbit q i = true.
+Proof.
+  intros Hinj H i. rewrite (script_mask_algebra _ _ _ _ _ _ H i). unfold applies. split.
+  - intros (q & Hq & Hb). apply U_inject_spec in Hq as (r & x & Hr & Hxk & Hh).
+    exists q. split; [|exact Hb]. exists r, x. repeat split; auto.
+    apply (covers_hash h rules host dom r x _ Hinj Hr Hxk). exact Hh.
+  - intros (q & (r & x & Hr & Hxk & Hc) & Hb). exists q. split; [|exact Hb].
+    apply U_inject_spec. exists r, x. repeat split; auto.
+    apply (covers_hash h rules host dom r x _ Hinj Hr Hxk). exact Hc.
+Qed.
+End Perm.
+
 Lemma hash_lists h host dom :
   get_entity_hashes_from_labels h host dom = map h (entity_strings host dom) /\
   get_hostname_hashes_from_labels h host dom = map h (hostname_strings host dom) /\
